@@ -32,7 +32,7 @@ type roArena struct {
 	// that is the last thing in a mapped file; round 12 seeded an 8-byte load guarded for 5 bytes). tailAt says which
 	// allocation of the case it is (0 = the first), tail is where the tail allocation begins (len(mem) while unused).
 	nalloc, tailAt, tail int
-	seals               int
+	seals                int
 }
 
 func roGet(w *mon.W) *roArena {
